@@ -48,7 +48,7 @@ theorem intoPath_probe_safe (root : Fd) (hr : 0 ≤ root) (cands : List Bytes)
   | cons c rest ih =>
     unfold Procfs.intoPath.probe
     apply Safe.mbind (Q' := fun _ => True)
-      (isOk_safe (fstatat_safe root c hr (hc c List.mem_cons_self)))
+      (Safe.mlift (existsAt_safe root c hr (hc c List.mem_cons_self)))
     · intro ok _
       split
       · exact trivial
